@@ -25,10 +25,10 @@ type sysDef struct {
 	Workers  int
 	// Exec runs st.hist+suffix.  literal=false allows the system to start from a
 	// rebuilt copy of st (st.snap) instead of replaying st.hist.
-	Exec     func(worker int, st *stateRec, suffix []string, mode string, literal bool) *execResult
-	Deadline time.Time // zero = none; reaching it stops the exploration (exhaustive:false)
-	MergeObs  bool // merge oracle: re-expand, per key, the first alternative history that ends in the observer letter
-	MergeAlts int  // merge oracle: and this many other alternative histories per key
+	Exec      func(worker int, st *stateRec, suffix []string, mode string, literal bool) *execResult
+	Deadline  time.Time // zero = none; reaching it stops the exploration (exhaustive:false)
+	MergeObs  bool      // merge oracle: re-expand, per key, the first alternative history that ends in the observer letter
+	MergeAlts int       // merge oracle: and this many other alternative histories per key
 }
 
 type poolCase struct {
@@ -72,11 +72,11 @@ type prov struct {
 
 type bfsStats struct {
 	States, Transitions, Merges, MergeChecks, MergeMismatch, Drains, Executions, PartialTransitions int64
-	Reaps, Blocks                                                                 int64
-	PerDepth                                                                      []int
-	DepthDone                                                                     int
-	Capped                                                                        bool
-	Wall                                                                          float64
+	Reaps, Blocks                                                                                   int64
+	PerDepth                                                                                        []int
+	DepthDone                                                                                       int
+	Capped                                                                                          bool
+	Wall                                                                                            float64
 }
 
 type reporter struct {
